@@ -360,6 +360,12 @@ fn gen_atom(ch: &mut Chooser) -> Tree {
                         text.push(c);
                         val.push(c)
                     }
+                    10 => {
+                        // hexadecimal scalar value escapes, digits in either case
+                        let (t, c) = *ch.pick(&[("\\x41;", 'A'), ("\\x3BB;", 'λ'), ("\\x3bb;", 'λ'), ("\\xE9;", 'é'), ("\\x1F600;", '😀'), ("\\x0a;", '\n'), ("\\x7C;", '|')]);
+                        text.push_str(t);
+                        val.push(c)
+                    }
                     9 => {
                         // the literal continues on the next line, possibly with blanks before the line break
                         let c = *ch.pick(&["\n", " \n", "\t\n", "  \n ", "\n\n"]);
@@ -510,7 +516,11 @@ fn tokens_of(t: &Tree, out: &mut Vec<(String, &'static str)>) {
     }
 }
 
-const SEPS: &[&str] = &[" ", "  ", "\t", "\n", "\r\n", "\r", " ; comment ( \" |\n", ";\r", "\n\n  ", " \t "];
+const SEPS: &[&str] = &[
+    " ", "  ", "\t", "\n", "\r\n", "\r", " ; comment ( \" |\n", ";\r", "\n\n  ", " \t ",
+    // comments that follow a blank, ended by each kind of line break
+    " ;c\r", "\t; x ( \r ", "  ; y\r\n", "\n ; z\r",
+];
 
 /// may two tokens be written without anything between them?
 fn adjacency_ok(left: &(String, &'static str), right: &(String, &'static str)) -> bool {
@@ -654,7 +664,7 @@ pub fn run(ctx: &Ctx) {
          Unsupported / Undefined; non-trivial = >= 2 tokens, or an Invalid/Unsupported string the lexer accepted.",
     );
     ctx.assume("the reference tokenizer (reflex.rs, written from R7RS 7.1.1 restricted to the supported grammar) is trusted; it has its own unit tests");
-    let cases = ctx.tier.pick(15_000, 80_000);
+    let cases = ctx.tier.pick(40_000, 200_000);
     ctx.random("trees", cases, 400, tree_case);
     // regression inputs and witnesses
     let w: Vec<String> = LEX_WITNESSES.iter().map(|s| s.to_string()).collect();
